@@ -33,6 +33,7 @@ type hsPlan struct {
 	Sep        []string // separator after the colon, per header
 	Order      []int    // permutation of header indices
 	Extra      bool
+	Pad        int         // >0: an additional header with this many bytes of value (response heads larger than the client's initial buffer)
 	Piggy      []wsMessage // complete messages sent in the same bytes as the response
 	PartialCut int         // >0: the last piggy-backed frame is cut after this many bytes; the rest follows later
 	Cuts       []int       // segment boundaries inside response(+piggy) bytes
@@ -95,6 +96,9 @@ func serveOne(ln net.Listener, p hsPlan, out chan<- hsServerResult) {
 	}
 	if p.Extra {
 		hs = append(hs, hdr{"X-Served-By", "verif"}, hdr{"Date", "Thu, 01 Jan 2026 00:00:00 GMT"})
+	}
+	if p.Pad > 0 {
+		hs = append(hs, hdr{"Set-Cookie", "session=" + strings.Repeat("c", p.Pad)})
 	}
 	var resp bytes.Buffer
 	resp.WriteString("HTTP/1.1 " + p.Status + "\r\n")
@@ -173,6 +177,7 @@ func genHsPlan(t *rapid.T, lbl string) hsPlan {
 	p.Sep = rapid.SliceOfN(rapid.SampledFrom([]string{" ", " ", "", "  ", "\t"}), 1, 4).Draw(t, lbl+"sep")
 	p.Order = rapid.Permutation([]int{0, 1, 2, 3, 4}).Draw(t, lbl+"order")
 	p.Extra = rapid.Bool().Draw(t, lbl+"extra")
+	p.Pad = rapid.SampledFrom([]int{0, 0, 0, 700, 900, 1100, 3000, 9000}).Draw(t, lbl+"pad")
 	p.Conforming = strings.HasPrefix(p.Status, "101 ") && strings.EqualFold(p.Upgrade, "websocket") && p.Accept == "right"
 	if rapid.IntRange(0, 2).Draw(t, lbl+"piggy") == 0 {
 		n := rapid.IntRange(1, 3).Draw(t, lbl+"npiggy")
@@ -270,7 +275,7 @@ func readClientFrames(c net.Conn, n int) ([]rfc6455.Frame, error) {
 
 func TestC18_Handshake(t *testing.T) {
 	rec := evid.For("C18")
-	rec.SetRule("rapid: 1..3 handshakes on one Stream against a raw TCP server in the harness; response = status {101 (two reason phrases), 200, 400, 426} x Upgrade {websocket in 3 spellings, missing, h2c, near misses: websockets, websocket2, xwebsocket, websocke, WebSocket-Draft76} x Sec-WebSocket-Accept {right, wrong, missing} x header-name case x separator after the colon {' ', '', two spaces, tab, trailing space} x header order permutation x extra headers x piggy-backed frames {none, 1..3 complete messages, last one cut after 1..6 bytes} x segmentation (1..3 cuts, 3 ms apart) x server close at byte j; blocking and asynchronous handshake; between handshakes the previous session may leave a queued Close(1002); oracle: request well-formed with a fresh 16-byte key and the caller's headers; success iff (101 and Upgrade: websocket and correct accept and response fully sent); failure => error, State()==Terminated and the server sees the client's end of the connection (not half-open); after success the messages read are exactly the piggy-backed ones followed by the later ones, and the first two frames the server receives are exactly the two the new session wrote; non-trivial = conforming response that is segmented or varied in case/whitespace with >=1 piggy-backed frame, or a second handshake on the same stream; distinct = hash of the plans")
+	rec.SetRule("rapid: 1..3 handshakes on one Stream against a raw TCP server in the harness; response = status {101 (two reason phrases), 200, 400, 426} x Upgrade {websocket in 3 spellings, missing, h2c, near misses: websockets, websocket2, xwebsocket, websocke, WebSocket-Draft76} x Sec-WebSocket-Accept {right, wrong, missing} x header-name case x separator after the colon {' ', '', two spaces, tab, trailing space} x header order permutation x extra headers (incl. a 700..9000-byte cookie: heads larger than the client's initial 1 KiB buffer) x piggy-backed frames {none, 1..3 complete messages, last one cut after 1..6 bytes} x segmentation (1..3 cuts, 3 ms apart) x server close at byte j; blocking and asynchronous handshake; between handshakes the previous session may leave a queued Close(1002); oracle: request well-formed with a fresh 16-byte key and the caller's headers; success iff (101 and Upgrade: websocket and correct accept and response fully sent); failure => error, State()==Terminated and the server sees the client's end of the connection (not half-open); after success the messages read are exactly the piggy-backed ones followed by the later ones, and the first two frames the server receives are exactly the two the new session wrote; non-trivial = conforming response that is segmented or varied in case/whitespace with >=1 piggy-backed frame, or a second handshake on the same stream; distinct = hash of the plans")
 	segKnown := known.Listed("C18", "response-single-read")
 	vt.Check(t, 400, func(rt *rapid.T) {
 		ln, err := net.Listen("tcp", "127.0.0.1:0")
@@ -350,7 +355,7 @@ func TestC18_Handshake(t *testing.T) {
 					_ = sr.conn.Close()
 				}
 			}
-			desc = append(desc, fmt.Sprintf("{%s up=%q/%s acc=%s/%s sep=%q order=%v extra=%v piggy=%d partial=%d cuts=%v endcuts=%v closeAt=%d async=%v}", p.Status, p.Upgrade, p.UpName, p.Accept, p.AcName, p.Sep, p.Order, p.Extra, len(p.Piggy), p.PartialCut, p.Cuts, p.EndCuts, p.CloseAt, async))
+			desc = append(desc, fmt.Sprintf("{%s up=%q/%s acc=%s/%s sep=%q order=%v extra=%v pad=%d piggy=%d partial=%d cuts=%v endcuts=%v closeAt=%d async=%v}", p.Status, p.Upgrade, p.UpName, p.Accept, p.AcName, p.Sep, p.Order, p.Extra, p.Pad, len(p.Piggy), p.PartialCut, p.Cuts, p.EndCuts, p.CloseAt, async))
 			if sr.request == nil {
 				closeServer()
 				rt.Fatalf("INFRA: the server saw no request: %v", sr.err)
